@@ -243,6 +243,23 @@ func sweepValues(md protoreflect.MessageDescriptor, runtime string) []*dynamicpb
 			}
 			m.Set(fd, protoreflect.ValueOfList(l))
 			add(m)
+			// long lists: element counts at which the payload of a packed run of 1-, 2-, 4-, 5-, 8- or 10-byte
+			// elements crosses the 1-byte (128) and 2-byte (16384) length-prefix limits, every element as wide
+			// as the kind allows / one byte wide
+			if fd.Kind() != protoreflect.StringKind && fd.Kind() != protoreflect.BytesKind {
+				wide, narrow := widestScalar(fd), vs[1%len(vs)]
+				for _, n := range listSweepLens {
+					for _, v := range []protoreflect.Value{wide, narrow} {
+						m := dynamicpb.NewMessage(md)
+						l := m.NewField(fd).List()
+						for i := 0; i < n; i++ {
+							l.Append(v)
+						}
+						m.Set(fd, protoreflect.ValueOfList(l))
+						add(m)
+					}
+				}
+			}
 		default:
 			for _, v := range boundaryFor(fd) {
 				if isNegZero(fd, v) && !fd.HasPresence() && excluding("negative-zero-in-implicit-presence-float") {
@@ -255,6 +272,32 @@ func sweepValues(md protoreflect.MessageDescriptor, runtime string) []*dynamicpb
 		}
 	}
 	return out
+}
+
+var listSweepLens = []int{12, 13, 15, 16, 17, 25, 26, 31, 32, 33, 63, 64, 65, 127, 128, 129, 1638, 1639, 2047, 2048, 2049, 3276, 3277, 4095, 4096, 4097, 8191, 8192, 8193, 16383, 16384, 16385}
+
+// widestScalar: a value of fd's kind with the longest encoding (10-byte varint for the signed varint kinds).
+func widestScalar(fd protoreflect.FieldDescriptor) protoreflect.Value {
+	V := protoreflect.ValueOf
+	switch fd.Kind() {
+	case protoreflect.Int32Kind:
+		return V(int32(-1))
+	case protoreflect.Sint32Kind:
+		return V(int32(math.MinInt32))
+	case protoreflect.Int64Kind:
+		return V(int64(-1))
+	case protoreflect.Sint64Kind:
+		return V(int64(math.MinInt64))
+	case protoreflect.Uint32Kind:
+		return V(uint32(math.MaxUint32))
+	case protoreflect.Uint64Kind:
+		return V(uint64(math.MaxUint64))
+	case protoreflect.EnumKind:
+		vs := boundaryFor(fd)
+		return vs[len(vs)-1]
+	}
+	vs := boundaryFor(fd)
+	return vs[len(vs)-1]
 }
 
 // fillOne sets the first scalar field of a message (used to make "non-empty" children).
@@ -389,6 +432,25 @@ func genDyn(t *rapid.T, md protoreflect.MessageDescriptor, depth int, o genOpts)
 		case fd.IsList():
 			l := m.NewField(fd).List()
 			n := rapid.SampledFrom([]int{0, 1, 1, 2, 2, 3, 6}).Draw(t, "nlist")
+			if fd.Message() == nil && rapid.IntRange(0, 7).Draw(t, "longlist") == 0 {
+				// a long list of a few drawn values: the payload of a packed run crosses a length-prefix limit
+				n = rapid.SampledFrom([]int{13, 16, 17, 26, 32, 33, 64, 65, 128, 129, 200}).Draw(t, "nlong")
+				if fd.Kind() != protoreflect.StringKind && fd.Kind() != protoreflect.BytesKind && rapid.IntRange(0, 5).Draw(t, "verylong") == 0 {
+					n = rapid.SampledFrom([]int{1639, 2048, 2049, 3277, 4096, 4097, 16384}).Draw(t, "nverylong")
+				}
+				base := []protoreflect.Value{genScalar(t, fd), genScalar(t, fd), genScalar(t, fd)}
+				if rapid.Bool().Draw(t, "allwide") {
+					base = []protoreflect.Value{widestScalar(fd)}
+				}
+				for i := 0; i < n; i++ {
+					v := base[i%len(base)]
+					if o.jsonSafe {
+						v = jsonSafeValue(fd, v)
+					}
+					l.Append(v)
+				}
+				n = 0
+			}
 			for i := 0; i < n; i++ {
 				if fd.Message() != nil {
 					l.Append(protoreflect.ValueOfMessage(genChild(t, fd.Message(), depth, o)))
